@@ -23,6 +23,11 @@ duplication, delay, reordering and withholding are all "some subset of the votes
 Timeouts, pacemaker jumps and resets appear only through the guard "a replica's votes are cast in
 non-decreasing views"; Byzantine replicas add arbitrary entries.
 
+The guards are deliberately weak (a weaker guard admits more histories, so the theorem is stronger): a
+PRECOMMIT_VOTE is *not* required to follow an own PROPOSE_VOTE for the same block (the code enforces it through
+`b.Block`, which `handleHighQCVDFAndEvidence` can overwrite mid-round), and the proposer key inside the signed payload
+is ignored (votes for one block under two proposer keys count towards one certificate).
+
 `Cfg` carries the three decisions of the code the proof depends on as *parameters*
 (`unlock`, `adoptOk`, `certBound`); `Canopy.Bft.genCfg` (Model/BftGen.lean) instantiates them with the functions
 regenerated from `/repo`. This file is core Lean only (it is linked into the driver).
